@@ -323,3 +323,259 @@ func (e *Engine) setupHTTPModel() {
 }
 
 type readerBox struct{ r iface }
+
+// ---------------------------------------------------------------------------
+// M-http-wire, request side: (*http.Request).Write and http.ReadRequest as a
+// codec over the same length-prefixed byte format. Write reproduces the
+// documented behaviour of net/http's client-side serialiser: request line from
+// Method and URL.RequestURI(), Host from r.Host or URL.Host, a default
+// User-Agent when the header has none, the header fields except Host,
+// User-Agent, Content-Length, Transfer-Encoding and Trailer, then the body read
+// until EOF. ReadRequest gives back Method, RequestURI, URL (parsed with the
+// real url.ParseRequestURI), Host, Header, ContentLength and Body.
+
+func (e *Engine) writeStr(w iface, s *bytesV) bool { return e.writeTo(w, e.concat(lenByte(s.n), s)) }
+
+func (e *Engine) setupHTTPRequestModel() {
+	x := e.ext
+	reqT := func() types.Type { return e.namedType("net/http", "Request") }
+	excluded := map[string]bool{"Host": true, "User-Agent": true, "Content-Length": true, "Transfer-Encoding": true, "Trailer": true}
+	x["(*net/http.Request).Write"] = func(e *Engine, fr *frame, a []value) value {
+		rp := a[0].(*value)
+		if rp == nil {
+			e.rtPanic("nil pointer dereference")
+		}
+		req := (*rp).(structV)
+		rt := reqT()
+		w := a[1].(iface)
+		fail := func() value { return e.newErr("M-http-wire: write failed") }
+		method := req[structField(rt, "Method")].(*bytesV)
+		if l, ok := method.concreteLen(); ok && l == 0 {
+			method = constStrV("GET")
+		}
+		up, _ := req[structField(rt, "URL")].(*value)
+		if up == nil {
+			return e.newErr("http: nil Request.URL")
+		}
+		uri := e.callFn(e.prog.LookupMethod(types.NewPointer(e.namedType("net/url", "URL")), nil, "RequestURI"), []value{up}).(*bytesV)
+		host := req[structField(rt, "Host")].(*bytesV)
+		if l, ok := host.concreteLen(); ok && l == 0 {
+			host = (*up).(structV)[structField(e.namedType("net/url", "URL"), "Host")].(*bytesV)
+		}
+		for _, s := range []*bytesV{method, uri, host} {
+			if !e.writeStr(w, s) {
+				return fail()
+			}
+		}
+		// header: default User-Agent, then the non-excluded fields
+		hd, _ := req[structField(rt, "Header")].(*mapV)
+		out := &mapV{}
+		ua := constStrV("Go-http-client/1.1")
+		uaVals := []value{ua}
+		haveUA := false
+		if hd != nil {
+			e.hbAccess(hd, false, "net/http.(*Request).write [Header]")
+			for i, k := range hd.keys {
+				if hd.isDead(i) {
+					continue
+				}
+				ks, ok := k.(*bytesV).goString()
+				if !ok {
+					// a symbolic field name: which excluded name it equals (if any) is decided by forking
+					for name := range excluded {
+						if e.decide(e.strEq(k.(*bytesV), constStrV(name))) {
+							ks, ok = name, true
+							break
+						}
+					}
+				}
+				if ok && ks == "User-Agent" {
+					haveUA = true
+					vals := hd.vals[i].(*sliceV)
+					if vals.len > 0 {
+						first := (*vals.arr)[vals.off].(*bytesV)
+						if !e.decide(Eq(first.n, BV(64, 0))) {
+							uaVals = []value{first}
+						} else {
+							uaVals = nil
+						}
+					}
+					continue
+				}
+				if ok && excluded[ks] {
+					continue
+				}
+				out.keys = append(out.keys, k)
+				out.vals = append(out.vals, hd.vals[i])
+			}
+		}
+		_ = haveUA
+		if uaVals != nil {
+			out.keys = append(out.keys, constStrV("User-Agent"))
+			out.vals = append(out.vals, &sliceV{arr: &uaVals, len: 1, cap: 1})
+		}
+		if !e.writeHeaderMap(w, out) {
+			return fail()
+		}
+		// body until EOF
+		body := req[structField(rt, "Body")].(iface)
+		if body.t != nil {
+			for {
+				buf := concreteBytes(make([]byte, 8))
+				r := e.callMethod(body, "Read", buf).(tuple)
+				n := r[0].(*Term)
+				if e.decide(Ult(BV(64, 0), n)) {
+					chunk := &bytesV{arr: buf.arr, n: n, cap: 8}
+					if !e.writeTo(w, e.concat(lenByte(n), chunk)) {
+						return fail()
+					}
+				}
+				if r[1].(iface).t != nil {
+					break
+				}
+			}
+		}
+		if !e.writeTo(w, concreteBytes([]byte{0})) {
+			return fail()
+		}
+		return e.errNil()
+	}
+
+	x["net/http.ReadRequest"] = func(e *Engine, fr *frame, a []value) value {
+		rd := a[0].(*readerBox).r
+		bad := func(msg string) value { return tuple{(*value)(nil), e.newErr("M-http-wire: " + msg)} }
+		p := &wireReader{e: e, rd: rd}
+		method, ok := p.takeStr()
+		if !ok {
+			return bad("short method")
+		}
+		uri, ok := p.takeStr()
+		if !ok {
+			return bad("short request target")
+		}
+		host, ok := p.takeStr()
+		if !ok {
+			return bad("short host")
+		}
+		header, ok := p.readMap()
+		if !ok {
+			return bad("short header")
+		}
+		var body []*Term
+		for {
+			n, ok := p.takeLen()
+			if !ok {
+				return bad("short body")
+			}
+			if n == 0 {
+				break
+			}
+			b, ok := p.take(n)
+			if !ok {
+				return bad("short chunk")
+			}
+			body = append(body, b...)
+		}
+		pu := e.callFn(e.fn("net/url", "ParseRequestURI"), []value{uri}).(tuple)
+		if pu[1].(iface).t != nil {
+			return tuple{(*value)(nil), pu[1]}
+		}
+		rt := reqT()
+		req := zero(rt).(structV)
+		req[structField(rt, "Method")] = method
+		req[structField(rt, "URL")] = pu[0]
+		req[structField(rt, "RequestURI")] = uri
+		req[structField(rt, "Proto")] = constStrV("HTTP/1.1")
+		req[structField(rt, "ProtoMajor")] = BV(64, 1)
+		req[structField(rt, "ProtoMinor")] = BV(64, 1)
+		req[structField(rt, "Header")] = header
+		req[structField(rt, "Host")] = host
+		req[structField(rt, "ContentLength")] = BV(64, uint64(len(body)))
+		bb := &bytesV{arr: &byteArr{b: body}, n: BV(64, uint64(len(body))), cap: len(body)}
+		rdr := e.callFn(e.fn("bytes", "NewReader"), []value{bb})
+		req[structField(rt, "Body")] = e.callFn(e.fn("io", "NopCloser"), []value{iface{t: types.NewPointer(e.namedType("bytes", "Reader")), v: rdr}})
+		rp := new(value)
+		*rp = req
+		return tuple{rp, e.errNil()}
+	}
+}
+
+// wireReader pulls the codec's fields from an io.Reader.
+type wireReader struct {
+	e       *Engine
+	rd      iface
+	pending []*Term
+	ended   bool
+}
+
+func (p *wireReader) fill(n int) bool {
+	e := p.e
+	for len(p.pending) < n && !p.ended {
+		buf := concreteBytes(make([]byte, 64))
+		r := e.callMethod(p.rd, "Read", buf).(tuple)
+		k := e.concretize(r[0].(*Term), 0, 64)
+		p.pending = append(p.pending, buf.arr.b[:k]...)
+		if r[1].(iface).t != nil {
+			p.ended = true
+		}
+	}
+	return len(p.pending) >= n
+}
+
+func (p *wireReader) take(n int) ([]*Term, bool) {
+	if !p.fill(n) {
+		return nil, false
+	}
+	out := p.pending[:n]
+	p.pending = p.pending[n:]
+	return out, true
+}
+
+func (p *wireReader) takeLen() (int, bool) {
+	b, ok := p.take(1)
+	if !ok {
+		return 0, false
+	}
+	return p.e.concretize(ZExt(b[0], 64), 0, 255), true
+}
+
+func (p *wireReader) takeStr() (*bytesV, bool) {
+	n, ok := p.takeLen()
+	if !ok {
+		return nil, false
+	}
+	b, ok := p.take(n)
+	if !ok {
+		return nil, false
+	}
+	return &bytesV{arr: &byteArr{b: append([]*Term{}, b...)}, n: BV(64, uint64(n)), cap: n}, true
+}
+
+func (p *wireReader) readMap() (*mapV, bool) {
+	m := &mapV{}
+	n, ok := p.takeLen()
+	if !ok {
+		return nil, false
+	}
+	for i := 0; i < n; i++ {
+		k, ok := p.takeStr()
+		if !ok {
+			return nil, false
+		}
+		nv, ok := p.takeLen()
+		if !ok {
+			return nil, false
+		}
+		vals := make([]value, nv)
+		for j := range vals {
+			v, ok := p.takeStr()
+			if !ok {
+				return nil, false
+			}
+			vals[j] = v
+		}
+		m.keys = append(m.keys, k)
+		m.vals = append(m.vals, &sliceV{arr: &vals, len: nv, cap: nv})
+	}
+	return m, true
+}
